@@ -4,6 +4,8 @@
      read  : the tokens of a file (+ bk) and what the real from_w90_file returned (+ the object the file was made from)
      npz   : obj, the names inside the .npz the real to_npz produced, what the real from_npz returned, the verdict of the
              class's own equals()
+   The clauses `layout` (write), `reader_model` (read), `names` and `from_dict` (npz) describe HOW the code does it; the
+   harness reports them as information.  The other clauses are the statement of C19.
    JSON: an object is {cls, attr {..}, dic [[tag, [[k, table], ..]], ..], dim {..}}; dictionaries with integer keys travel
    as lists of pairs. *)
 EXTENDS W90Store, Json, IOUtils, TLCExt
@@ -29,7 +31,12 @@ ReadClauses ==
    LET r == CASE Rec.cls = "eig" -> ReadEig(Rec.lines) [] Rec.cls = "amn" -> ReadAmn(Rec.lines) [] Rec.cls = "mmn" -> ReadMmn(Rec.lines, B) IN
    [ no_failure   |-> (r.err = "") => OutOK,
      reader_model |-> IF r.err = "" THEN OutOK => SameObj(r.obj, Y) ELSE ~OutOK,
-     round_trip   |-> (Rec.has_obj /\ OutOK) => Y.dic["data"] = X.dic["data"] /\ Y.dim = X.dim ]
+     round_trip   |-> (Rec.has_obj /\ OutOK) => Y.dic["data"] = X.dic["data"] /\ Y.dim = X.dim,
+     \* a .mmn file that lists the neighbours of k in another order than the b-vector table (Rec.perm[k+1][p] = index of the
+     \* b-vector of the p-th block, 0-based): the reader brings the blocks into the order of the table and says where they were
+     reorder      |-> (Rec.cls = "mmn" /\ Rec.has_perm /\ OutOK) =>
+                         \A k \in DOMAIN Y.dic["bk_reorder"] : \A j \in 1..Len(Y.dic["bk_reorder"][k]) :
+                            Rec.perm[k + 1][Y.dic["bk_reorder"][k][j] + 1] = j - 1 ]
 NpzClauses ==
    LET d == AsDict(X)  r == FromDict(Rec.cls, d) IN
    [ names        |-> AsSet(Rec.names) = DOMAIN d /\ NoKeyClash(X),
